@@ -475,6 +475,33 @@ func TestVerifC14(t *testing.T) {
 			if conn != nil && c.K == "reconnect" {
 				conn.Close()
 			}
+			// "silent": while the reader is silent the service keeps WRITING — a read command every 5 s, as an application
+			// polling the reader or EdgeX auto-events would: what the service writes must not extend how long the silent
+			// reader is tolerated. (The polls get no answer; those still pending at the change-over may be repeated on the
+			// new connection: checks/c14.py leaves GetReaderCapabilities out of that connection's first frames.)
+			stopPoll := make(chan struct{})
+			var polls sync.WaitGroup
+			if c.K == "silent" {
+				polls.Add(1)
+				go func() {
+					defer polls.Done()
+					tick := time.NewTicker(5 * time.Second)
+					defer tick.Stop()
+					for {
+						polls.Add(1)
+						go func() {
+							defer polls.Done()
+							defer func() { _ = recover() }()
+							_, _ = d.HandleReadCommands(devName, proto, []dsModels.CommandRequest{{DeviceResourceName: "ReaderCapabilities", Type: "Object"}})
+						}()
+						select {
+						case <-stopPoll:
+							return
+						case <-tick.C:
+						}
+					}
+				}()
+			}
 			start := time.Now()
 			budget := 40 * time.Second
 			if c.K == "silent" {
@@ -509,6 +536,8 @@ func TestVerifC14(t *testing.T) {
 					}
 				}
 			}
+			close(stopPoll)
+			polls.Wait()
 			ok := waitFor(3, 1)
 			ans.Fence = fence()
 			ans.Frames = rd.take()
@@ -712,5 +741,225 @@ func TestVerifC14Conc(t *testing.T) {
 		ctx, cancel := context.WithTimeout(context.Background(), 2*time.Second)
 		d.removeDevice(ctx, n)
 		cancel()
+	}
+}
+
+// ------------------------------------------------------------------ the read timeout as applied to the connection
+// TestVerifC14Deadline: the behavioural half of "the 60 s read timeout the service applies to the connection".
+// The device dials by itself, so its connection cannot be wrapped; what is observed instead is an llrp.Client built
+// with the timeout the device's OWN client carries (read off the client NewLLRPDevice built, "dev" lines) or a
+// scaled-down one ("scaled" lines), connected through a net.Conn wrapper that records every SetDeadline /
+// SetReadDeadline / SetWriteDeadline / Read / Write call, to a scripted reader that completes the handshake and then
+// goes SILENT (socket open, bytes still drained). While the client's read side is parked in Read the harness makes
+// the client write messages. checks/c14.py judges: which calls moved the read deadline while the read was parked
+// (none may: how long a silent reader is tolerated must not depend on what the client writes), the value of the read
+// deadlines, and — scaled — when the client gave the connection up although it kept writing.
+
+type c14DLEvent struct {
+	Op      string `json:"op"` // SetDeadline | SetReadDeadline | SetWriteDeadline | Read | ReadRet | Write
+	AtMs    int64  `json:"at_ms"`
+	DeltaMs int64  `json:"delta_ms"` // deadline - now (deadline calls); bytes (ReadRet / Write)
+	Parked  bool   `json:"parked"`   // a Read call was in progress when this call was made
+	Zero    bool   `json:"zero,omitempty"`
+}
+
+type c14DLConn struct {
+	net.Conn
+	mu      sync.Mutex
+	t0      time.Time
+	events  []c14DLEvent
+	reading int
+	writes  int
+}
+
+func (c *c14DLConn) rec(op string, delta int64, zero bool) {
+	c.mu.Lock()
+	c.events = append(c.events, c14DLEvent{Op: op, AtMs: time.Since(c.t0).Milliseconds(), DeltaMs: delta, Parked: c.reading > 0, Zero: zero})
+	c.mu.Unlock()
+}
+func (c *c14DLConn) SetDeadline(t time.Time) error {
+	c.rec("SetDeadline", time.Until(t).Milliseconds(), t.IsZero())
+	return c.Conn.SetDeadline(t)
+}
+func (c *c14DLConn) SetReadDeadline(t time.Time) error {
+	c.rec("SetReadDeadline", time.Until(t).Milliseconds(), t.IsZero())
+	return c.Conn.SetReadDeadline(t)
+}
+func (c *c14DLConn) SetWriteDeadline(t time.Time) error {
+	c.rec("SetWriteDeadline", time.Until(t).Milliseconds(), t.IsZero())
+	return c.Conn.SetWriteDeadline(t)
+}
+func (c *c14DLConn) Read(b []byte) (int, error) {
+	c.rec("Read", 0, false)
+	c.mu.Lock()
+	c.reading++
+	c.mu.Unlock()
+	n, err := c.Conn.Read(b)
+	c.mu.Lock()
+	c.reading--
+	c.mu.Unlock()
+	c.rec("ReadRet", int64(n), false)
+	return n, err
+}
+func (c *c14DLConn) Write(b []byte) (int, error) {
+	n, err := c.Conn.Write(b)
+	c.mu.Lock()
+	c.writes++
+	c.mu.Unlock()
+	c.rec("Write", int64(n), false)
+	return n, err
+}
+func (c *c14DLConn) state() (reading, writes, nev int) {
+	c.mu.Lock()
+	defer c.mu.Unlock()
+	return c.reading, c.writes, len(c.events)
+}
+
+type c14DLLine struct {
+	K        string `json:"k"`         // "dev" (timeout of the device's own client) | "scaled"
+	ScaleMs  int64  `json:"scale_ms"`  // timeout of a "scaled" client
+	Writes   int    `json:"writes"`    // messages written while the reader is silent ("dev")
+	EveryMs  int64  `json:"every_ms"`  // pause between writes ("scaled")
+	BudgetMs int64  `json:"budget_ms"` // how long a "scaled" run keeps writing at most
+}
+
+type c14DLAnswer struct {
+	TimeoutMs  int64        `json:"timeout_ms"`
+	Consts     *c14Consts   `json:"consts,omitempty"`
+	Mark       int          `json:"mark"` // events[mark:] were recorded after the reader went silent with the read side parked
+	Events     []c14DLEvent `json:"events"`
+	Written    int          `json:"written"`    // writes that reached the connection after the mark
+	SilentAtMs int64        `json:"silent_at_ms"`
+	DroppedMs  int64        `json:"dropped_ms"` // when Connect returned (-1: it had not when the run ended)
+	Note       string       `json:"note,omitempty"`
+}
+
+func TestVerifC14Deadline(t *testing.T) {
+	lines, w, done := verifIO(t)
+	defer done()
+
+	for _, line := range lines {
+		var dl c14DLLine
+		if err := json.Unmarshal([]byte(line), &dl); err != nil {
+			t.Fatalf("bad request line: %v", err)
+		}
+		ans := c14DLAnswer{DroppedMs: -1}
+		timeout := time.Duration(dl.ScaleMs) * time.Millisecond
+		if dl.K == "dev" {
+			// the timeout the service configures: off the client a real device built
+			d, stopDrain := newC14Driver()
+			rd0 := newC14Reader(t)
+			_, portStr, _ := net.SplitHostPort(rd0.ln.Addr().String())
+			dev, _, err := d.getDevice("c14DL", protocolMap{"tcp": {"host": "127.0.0.1", "port": portStr}})
+			if err != nil {
+				t.Fatal(err)
+			}
+			deadline := time.Now().Add(15 * time.Second)
+			for time.Now().Before(deadline) && rd0.count(3) < 1 {
+				time.Sleep(2 * time.Millisecond)
+			}
+			ans.Consts = dumpConsts(dev)
+			timeout = time.Duration(ans.Consts.ClientTimeoutMs) * time.Millisecond
+			ctx, cancel := context.WithTimeout(context.Background(), 2*time.Second)
+			d.removeDevice(ctx, "c14DL")
+			cancel()
+			rd0.ln.Close()
+			stopDrain()
+		}
+		ans.TimeoutMs = timeout.Milliseconds()
+		if timeout <= 0 {
+			ans.Note = "the client has no read timeout"
+			b, _ := json.Marshal(ans)
+			w.Write(b)
+			w.WriteByte('\n')
+			continue
+		}
+
+		rd := newC14Reader(t)
+		raw, err := net.Dial("tcp", rd.ln.Addr().String())
+		if err != nil {
+			t.Fatal(err)
+		}
+		conn := &c14DLConn{Conn: raw, t0: time.Now()}
+		cl := llrp.NewClient(llrp.WithTimeout(timeout), llrp.WithLogger(nil))
+		connDone := make(chan struct{})
+		go func() { _ = cl.Connect(conn); close(connDone) }()
+
+		fenceN := uint64(0)
+		send := func(wait time.Duration) error {
+			fenceN++
+			data := make([]byte, 8)
+			binary.BigEndian.PutUint64(data, fenceN)
+			ctx, cancel := context.WithTimeout(context.Background(), wait)
+			defer cancel()
+			return cl.SendFor(ctx, &llrp.CustomMessage{VendorID: c14FenceVendor, MessageSubtype: c14FenceSubtype, Data: data}, &llrp.CustomMessage{})
+		}
+		// operational: one full exchange
+		if err := send(10 * time.Second); err != nil {
+			ans.Note = "exchange before the silence failed: " + err.Error()
+		}
+		// the reader goes silent (keeps draining); wait until the client's read side is parked
+		rd.mu.Lock()
+		rd.silent = rd.conn
+		rd.mu.Unlock()
+		parkBy := time.Now().Add(5 * time.Second)
+		for time.Now().Before(parkBy) {
+			if r, _, _ := conn.state(); r > 0 {
+				break
+			}
+			time.Sleep(time.Millisecond)
+		}
+		time.Sleep(5 * time.Millisecond) // still parked (nothing is coming any more)
+		_, w0, mark := conn.state()
+		ans.Mark = mark
+		ans.SilentAtMs = time.Since(conn.t0).Milliseconds()
+
+		if dl.K == "dev" {
+			for i := 0; i < dl.Writes; i++ {
+				_, before, _ := conn.state()
+				_ = send(30 * time.Millisecond) // no answer will come: the message is written, the wait is given up
+				by := time.Now().Add(5 * time.Second)
+				for time.Now().Before(by) {
+					if _, n, _ := conn.state(); n > before {
+						break
+					}
+					time.Sleep(time.Millisecond)
+				}
+			}
+		} else {
+			budget := time.NewTimer(time.Duration(dl.BudgetMs) * time.Millisecond)
+		loop:
+			for {
+				select {
+				case <-connDone:
+					ans.DroppedMs = time.Since(conn.t0).Milliseconds()
+					break loop
+				case <-budget.C:
+					break loop
+				default:
+				}
+				_ = send(time.Duration(dl.EveryMs) * time.Millisecond)
+			}
+			budget.Stop()
+		}
+		_, w1, _ := conn.state()
+		ans.Written = w1 - w0
+		go func() { _ = cl.Close() }()
+		raw.Close()
+		select {
+		case <-connDone:
+		case <-time.After(10 * time.Second):
+			ans.Note += " Connect did not return after the connection was closed"
+		}
+		rd.ln.Close()
+		conn.mu.Lock()
+		ans.Events = append([]c14DLEvent{}, conn.events...)
+		conn.mu.Unlock()
+		if len(ans.Events) > 1000 {
+			ans.Events = ans.Events[:1000]
+		}
+		b, _ := json.Marshal(ans)
+		w.Write(b)
+		w.WriteByte('\n')
 	}
 }
